@@ -13,10 +13,13 @@ from ..runner import deadline_passed
 
 from pyModelChecking.graph import DiGraph
 
-RULE = ('all digraphs on n<=4 nodes by edge bitmask x all node subsets X; operations '
+RULE = ('(a) all digraphs on n<=4 nodes by edge bitmask x all node subsets X; operations '
         'get_reachable_set_from, get_reversed_graph (once and twice), get_subgraph, clone + every '
         'one-step mutation of the clone / of the original; non-trivial = the graph has an edge and '
-        'X is a proper non-empty subset')
+        'X is a proper non-empty subset; (b) all operation histories up to the stated depth over '
+        'mutators and queries, every query answer compared with a set model (states = distinct '
+        'model graphs reached, transitions = operations executed); a history is non-trivial if a '
+        'query precedes a mutation')
 ASSUMPTIONS = ['reference: Warshall closure and literal comprehensions over the edge tuple',
                'X ranges over subsets of V for reachability (the statement says "node set"); '
                'get_subgraph additionally receives a non-node']
@@ -25,13 +28,39 @@ OUTSIDE = 99
 
 
 def scope(tier, seed):
-    return {'graphs': 'all 2+16+512+65536 digraphs on <=4 nodes', 'subsets': 'all 2^n (+ variants '
+    return {'histories': 'every operation history of length <=%d over a 24-operation alphabet (9 '
+            'add_edge on 3 nodes, 2 add_edge introducing node 3, 4 add_node, reversed, reversed twice, '
+            'clone, 2 reach, 2 subgraph, edges) from 11 initial graphs, each replayed on a fresh real '
+            'DiGraph next to a (V,E) set model' % (3 if tier == 'quick' else 4),
+            'graphs': 'all 2+16+512+65536 digraphs on <=4 nodes', 'subsets': 'all 2^n (+ variants '
             'with the non-node 99 for get_subgraph)', 'insertion orders': 'identity and reverse'
             if tier == 'quick' else 'identity, reverse, all rotations'}
 
 
+HIST_INIT = [(0, ()), (1, ()), (1, ((0, 0),)), (2, ()), (2, ((0, 1),)), (2, ((0, 1), (1, 0))),
+             (2, ((0, 0), (0, 1))), (3, ((0, 1), (1, 2))), (3, ((0, 1), (1, 2), (2, 0))),
+             (3, ((0, 0), (1, 1), (2, 2))), (3, ((0, 1), (0, 2), (1, 2), (2, 1)))]
+
+
+def hist_alphabet():
+    ops = []
+    for a in range(3):
+        for b in range(3):
+            ops.append(('add_edge', a, b))
+    for a in range(4):
+        ops.append(('add_node', a))
+    ops.append(('add_edge', 0, 3))
+    ops.append(('add_edge', 3, 1))
+    ops += [('reversed',), ('reversed2',), ('clone',), ('reach', (0,)), ('reach', (1, 2)),
+            ('subgraph', (0, 1)), ('subgraph', (1, 2, 3)), ('edges',)]
+    return ops
+
+
 def plan(tier, seed):
     sh = [['small']]
+    for i in range(len(HIST_INIT)):
+        for j in range(len(hist_alphabet())):
+            sh.append(['hist', i, j, 3 if tier == 'quick' else 4])
     for lo, hi in chunks(65536, 1024 if tier == 'quick' else 512):
         sh.append(['n4', lo, hi])
     return sh
@@ -155,7 +184,120 @@ def orders_for(n, tier):
     return out
 
 
+def run_history(init, hist, acc):
+    """Replay one operation history on a fresh real DiGraph next to a (V,E) set model."""
+    n0, e0 = init
+    G = DiGraph(V=list(range(n0)), E=list(e0))
+    V = set(range(n0))
+    E = set(e0)
+    case = {'init': [n0, [list(e) for e in e0]], 'history': [list(o) for o in hist]}
+
+    def bad(kind, step, exp, got):
+        c = dict(case)
+        c['step'] = step
+        acc.violation('history-' + kind, c, exp, got)
+
+    def observe(step, which):
+        if which in ('reversed', 'all'):
+            r = call(G.get_reversed_graph)
+            exp = (sorted(V), sorted((d, s) for (s, d) in E))
+            if r[0] != 'ok' or snap(r[1]) != exp:
+                bad('reversed', step, exp, r[1:] if r[0] != 'ok' else snap(r[1]))
+                return False
+        if which in ('reversed2', 'all'):
+            r = call(lambda: G.get_reversed_graph().get_reversed_graph())
+            exp = (sorted(V), sorted(E))
+            if r[0] != 'ok' or snap(r[1]) != exp:
+                bad('reversed-twice', step, exp, r[1:] if r[0] != 'ok' else snap(r[1]))
+                return False
+        if which in ('clone', 'all'):
+            r = call(G.clone)
+            exp = (sorted(V), sorted(E))
+            if r[0] != 'ok' or snap(r[1]) != exp:
+                bad('clone', step, exp, r[1:] if r[0] != 'ok' else snap(r[1]))
+                return False
+        if which in ('edges', 'all'):
+            exp = (sorted(V), sorted(E))
+            got = (sorted(G.nodes()), sorted(G.edges()))
+            if got != exp:
+                bad('edges', step, exp, got)
+                return False
+        return True
+
+    for step, op in enumerate(hist):
+        k = op[0]
+        if k == 'add_edge':
+            a, b = op[1], op[2]
+            r = call(G.add_edge, a, b)
+            if (a, b) in E:
+                if not (r[0] == 'exc' and r[1] == 'RuntimeError'):
+                    bad('duplicate-edge-accepted', step, 'RuntimeError', r[:2])
+                    return
+            else:
+                if r[0] != 'ok':
+                    bad('add_edge-exception', step, None, r[1:])
+                    return
+                E.add((a, b))
+                V.add(a)
+                V.add(b)
+        elif k == 'add_node':
+            r = call(G.add_node, op[1])
+            if op[1] in V:
+                if not (r[0] == 'exc' and r[1] == 'RuntimeError'):
+                    bad('duplicate-node-accepted', step, 'RuntimeError', r[:2])
+                    return
+            else:
+                if r[0] != 'ok':
+                    bad('add_node-exception', step, None, r[1:])
+                    return
+                V.add(op[1])
+        elif k == 'reach':
+            X = set(op[1]) & V
+            n = max(V) + 1 if V else 0
+            rc = closure(n, sorted(E))
+            exp = set(X) | set(j for i in X for j in range(n) if rc[i][j])
+            r = call(G.get_reachable_set_from, set(X))
+            if r[0] != 'ok' or r[1] != exp:
+                bad('reach', step, sorted(exp), r[1:] if r[0] != 'ok' else sorted(r[1]))
+                return
+        elif k == 'subgraph':
+            X = set(op[1])
+            exp = (sorted(X & V), sorted((s, d) for (s, d) in E if s in X and d in X))
+            r = call(G.get_subgraph, set(X))
+            if r[0] != 'ok' or snap(r[1]) != exp:
+                bad('subgraph', step, exp, r[1:] if r[0] != 'ok' else snap(r[1]))
+                return
+        else:
+            if not observe(step, k):
+                return
+        acc.add('transitions')
+    observe(len(hist), 'all')
+    acc.ev(1, 1 if any(o[0] in ('add_edge', 'add_node') for o in hist) and
+           any(o[0] not in ('add_edge', 'add_node') for o in hist[:-1]) else 0)
+    return (frozenset(V), frozenset(E))
+
+
 def run_shard(shard, tier, seed, acc):
+    if shard[0] == 'hist':
+        init = HIST_INIT[shard[1]]
+        ops = hist_alphabet()
+        first = ops[shard[2]]
+        depth = shard[3]
+        seen = set()
+        for rest in itertools.product(ops, repeat=depth - 1):
+            st = run_history(init, (first,) + rest, acc)
+            if st is not None:
+                seen.add(st)
+        # shorter histories starting with `first`
+        for d in range(0, depth - 1):
+            for rest in itertools.product(ops, repeat=d):
+                st = run_history(init, (first,) + rest, acc)
+                if st is not None:
+                    seen.add(st)
+        acc.add('states', len(seen))
+        acc.sample({'init': [init[0], [list(e) for e in init[1]]],
+                    'history': [list(first), ['reversed'], ['add_edge', 2, 0], ['reversed2']]})
+        return
     if shard[0] == 'small':
         for n in (0, 1, 2, 3):
             for edges in spaces.digraphs(n):
@@ -178,5 +320,9 @@ def replay(art):
     from ..runner import Acc
     c = art['case']
     acc = Acc()
+    if 'history' in c:
+        run_history((c['init'][0], tuple(tuple(e) for e in c['init'][1])),
+                    tuple(tuple(tuple(x) if isinstance(x, list) else x for x in o) for o in c['history']), acc)
+        return {'violates': acc.d['nviol'] > 0, 'detail': acc.d['violations'][:1]}
     check_graph(c['n'], [tuple(e) for e in c['edges']], c['order'], acc, 'thorough')
     return {'violates': acc.d['nviol'] > 0, 'detail': acc.d['violations'][:2]}
